@@ -236,6 +236,19 @@ func genHostile(rt *rapid.T) (string, []string) {
 				if strings.TrimLeft(sep, " \t\r\n") == sep && sep == "" {
 					sep = " "
 				}
+				// ... but a keyword needs none before a literal, a quoted identifier or a block comment:
+				// or'y', from"select", select/* c */a
+				if prev := toks[max(i-1, 0)]; i > 0 && prev.KW && len(prev.Text) >= 2 && rapid.IntRange(0, 5).Draw(rt, "glued") == 0 {
+					switch {
+					case strings.HasPrefix(text, "'") || strings.HasPrefix(text, `"`):
+						sep = ""
+						cl["keyword_glued_to_quoted_token"] = true
+					case rapid.Bool().Draw(rt, "glued_comment"):
+						sep = rapid.SampledFrom([]string{"/* it's */", "/* a  b */", "/**/", "/* \"q */"}).Draw(rt, "glue_cmt")
+						cl["keyword_glued_to_comment"] = true
+						cl["comment_with_quote_or_keyword"] = true
+					}
+				}
 				b.WriteString(sep)
 			}
 			b.WriteString(text)
@@ -243,6 +256,28 @@ func genHostile(rt *rapid.T) (string, []string) {
 		if s < nst-1 || rapid.Bool().Draw(rt, "semi") {
 			b.WriteString(rapid.SampledFrom([]string{";", " ;", ";  ", ";\n\n\n"}).Draw(rt, "semi_sp"))
 		}
+	}
+	if rapid.IntRange(0, 5).Draw(rt, "dollar_run") == 0 {
+		// a run of dollar-quoted strings, tags repeating and alternating: each body is literal content
+		nd := rapid.IntRange(2, 6).Draw(rt, "ndollar")
+		b.WriteString(rapid.SampledFrom([]string{"\n", " ;\n", ";\n\n"}).Draw(rt, "dollar_lead"))
+		b.WriteString("SELECT ")
+		for d := 0; d < nd; d++ {
+			if d > 0 {
+				b.WriteString(rapid.SampledFrom([]string{", ", " , ", ",\n  ", ","}).Draw(rt, "dollar_sep"))
+			}
+			tag := rapid.SampledFrom([]string{"", "", "q", "té", "Q", "q"}).Draw(rt, "dollar_tag")
+			body := rapid.SampledFrom([]string{"a", "b  c", "select  x from  t", "it's", " from  where \n\n\n\n x   \n", "-- no  comment", "$", "$ q$ $x", "'", "/* open"}).Draw(rt, "dollar_body")
+			if tag == "" && strings.Contains(body, "$") {
+				body = "plain  body"
+			}
+			b.WriteString("$" + tag + "$" + body + "$" + tag + "$")
+			if strings.Contains(body, "\n") {
+				cl["multiline_literal"] = true
+			}
+		}
+		b.WriteString(" from t1")
+		cl["dollar_string_run"] = true
 	}
 	b.WriteString(rapid.SampledFrom([]string{"", "\n", "  \n", "\n\n\n", " ", "\n\n", "\r\n\r\n", "\r\n"}).Draw(rt, "tail"))
 	text := b.String()
